@@ -13,7 +13,7 @@ const (
 	BiasSizes              // C08: sizes around the limits, no faults
 )
 
-var tempCodes = []int16{5, 6, 7, 19, 3}
+var tempCodes = []int16{5, 6, 7, 19, 3, 20} // ... NotEnoughReplicasAfterAppend (Produce documents it; temporary in the library's classification)
 var permCodes = []int16{10, 17, 29, 18, 45, -1} // MessageSizeTooLarge, InvalidTopic, TopicAuthorizationFailed, RecordListTooLarge, UnsupportedForMessageFormat... (non-temporary in the library's classification)
 
 // GenCase draws a scenario.  stratum selects a fixed shape (so that the
@@ -67,6 +67,7 @@ func GenCase(t *rapid.T, bias Bias, stratum int) Case {
 		c.Balancer = "roundrobin"
 	}
 	maxMsg := 120
+	explicitTimes := rapid.IntRange(0, 3).Draw(t, "explicitTimes") == 0
 	nCallers := rapid.IntRange(1, 4).Draw(t, "callers")
 	if bias == BiasOrder {
 		nCallers = rapid.IntRange(1, 3).Draw(t, "callers")
@@ -87,6 +88,9 @@ func GenCase(t *rapid.T, bias Bias, stratum int) Case {
 					ValueSize: rapid.IntRange(8, maxMsg).Draw(t, "valueSize"), Headers: rapid.SampledFrom([]int{0, 0, 0, 1, 2}).Draw(t, "headers"), HeaderLen: rapid.IntRange(0, 6).Draw(t, "headerLen")}
 				if !c.WriterTopic {
 					msg.Topic = c.Topics[rapid.IntRange(0, nTopics-1).Draw(t, "topic")]
+				}
+				if explicitTimes && rapid.IntRange(0, 4).Draw(t, "timed") > 0 {
+					msg.TimeOffMs = rapid.IntRange(-100000, 100000).Draw(t, "timeOffMs")
 				}
 				built := Build(ID{ci, k, m}, msg)
 				if s := TotalSize(&built); s > largest {
